@@ -8,6 +8,7 @@ From GB Require Import TB_Trace TBs_Def TBs_Sanity TBs_Proof.
 From GB Require Import TG_Finite TG_Stuck TG_Final.
 From GB Require Import Order HistoryProof ConcProps Frame LockInv AUD_Proof.
 From Coq Require Import ZArith.
+From GB Require Import O2_NoDel TB_HW TB_Counter O2b_TB O2b_CB.
 Import ListNotations.
 
 (* ====================== C05: the callback of Update runs exactly once, on the current value ====================== *)
@@ -202,3 +203,46 @@ Theorem C12_accepted_orders_are_usable :
     entries t = fst (run_spec ltb [] ops) /\ Inv ltb (Z.to_nat o) t.
 Proof. exact accepted_orders_are_usable. Qed.
 Print Assumptions C12_accepted_orders_are_usable.
+
+(* ====================== order 2 (client programs without Delete: known finding K1) ====================== *)
+
+(* the Herlihy-Wing form of C03 for every even order >= 2 when no program contains a Delete *)
+Theorem C03_history_linearizable_order2_no_delete :
+  forall (K V : Type) (ltb : K -> K -> bool), SWO ltb -> forall order, Nat.even order = true -> 2 <= order ->
+  forall (progs : list (tid * list (cop K V))), NoDup (map fst progs) -> no_delete_progs K V progs ->
+  forall sched, TB_HW.linearizable ltb (TB_HW.history_of (itrace ltb order (iinit progs) sched)).
+Proof. exact history_linearizable_order2_no_delete. Qed.
+Print Assumptions C03_history_linearizable_order2_no_delete.
+
+(* the counter corollary of C05 for every even order >= 2 when no program contains a Delete *)
+Theorem C05_counter_order2_no_delete :
+  forall (K V : Type) (ltb : K -> K -> bool), SWO ltb -> forall order, Nat.even order = true -> 2 <= order ->
+  forall (progs : list (tid * list (cop K V))), NoDup (map fst progs) -> no_delete_progs K V progs ->
+  forall (k : K) (inc : option V -> V),
+  (forall t p o, In (t, p) progs -> In o p -> is_writer K V ltb k o = true -> exists k', o = CUpdate k' inc) ->
+  forall sched, let final := is_st (iexec ltb order (iinit progs) sched) in
+  (forall t, In t (map fst progs) -> unfinished final t = false) ->
+  lookup ltb k (abs ltb final) = Nat.iter (writers K V ltb progs k) (fun a => Some (inc a)) None.
+Proof. exact counter_order2_no_delete. Qed.
+Print Assumptions C05_counter_order2_no_delete.
+
+(* the callback step of Update for every even order >= 2 when no program contains a Delete *)
+Theorem C05_callback_sees_current_value_order2_no_delete :
+  forall (K V : Type) (ltb : K -> K -> bool), SWO ltb -> forall order, Nat.even order = true -> 2 <= order ->
+  forall (progs : list (tid * list (cop K V))), NoDup (map fst progs) -> no_delete_progs K V progs ->
+  forall sched0 s' t th o leaf mode index acq ev,
+  get_thread t (ths (fst (exec ltb order (init_st progs) sched0))) = Some th ->
+  tpc th = UpdCallback o leaf mode index ->
+  cstep ltb order (fst (exec ltb order (init_st progs) sched0)) t = Stepped s' acq ev ->
+  exists k f th',
+    let arg := lookup ltb k (abs ltb (fst (exec ltb order (init_st progs) sched0))) in
+    o = CUpdate k f /\ hd_error (prog th) = Some o /\ acq = None /\
+    get_thread t (ths s') = Some th' /\ tpc th' = Idle /\ prog th' = tl (prog th) /\
+    results th' = RArg K arg :: results th /\
+    ev = [EReturn (RArg K arg)] /\
+    lp_step ltb (fst (exec ltb order (init_st progs) sched0)) t acq ev s' = Some (OUpdate k f) /\
+    abs ltb s' = put ltb k f (abs ltb (fst (exec ltb order (init_st progs) sched0))) /\
+    lookup ltb k (abs ltb s') = Some (f arg) /\
+    exists k', eqv ltb k k' /\ In (k', f arg) (abs ltb s').
+Proof. exact C05_callback_step_order2_no_delete. Qed.
+Print Assumptions C05_callback_sees_current_value_order2_no_delete.
